@@ -1305,10 +1305,12 @@ func doReplay(bin, path, digest string) int {
 	}
 	known := loadKnown()
 	rc := 0
+	seen := map[string]bool{}
 	for _, v := range r.Violations {
-		if v.Class == "harness-race" {
+		if v.Class == "harness-race" || seen[v.Key] {
 			continue
 		}
+		seen[v.Key] = true
 		if _, ok := known[v.Key]; ok {
 			continue
 		}
